@@ -2408,6 +2408,380 @@ def r19_driver_conversions(run):
     if n_conv < 3:
         raise AnchorError('%s / %s: fewer than three shared parameters are converted at all (anchor moved?)' % (wq, aq))
 
+# ---------------------------------------------------------------------------
+# R20: the simulated Host header carries the port exactly when it is not the default port of the scheme
+# ---------------------------------------------------------------------------
+
+_R20_HOST = 'host.example'
+_R20_SCHEMES = ('http', 'https')
+_R20_DEFAULT_PORT = {'http': 80, 'https': 443}       # RFC 9110, 4.2.1 / 4.2.2: the default port of each scheme
+_R20_PORTS = (None, 80, 443, 8080)                   # not given / http's default / https's default / neither
+
+
+def _host_sinks(p, f: Func):
+    """[(statement, value expression)]: where f puts the Host header into the simulated request --
+    `env['HTTP_HOST'] = v` (WSGI environ) or `headers.append([b'host', v])` (ASGI scope)."""
+    out = []
+    for s in walk_no_nested(f.node):
+        if isinstance(s, ast.Assign) and len(s.targets) == 1 and isinstance(s.targets[0], ast.Subscript):
+            if p.fold(f.module, s.targets[0].slice, None, f) == 'HTTP_HOST':
+                out.append((s, s.value))
+        elif isinstance(s, ast.Expr) and isinstance(s.value, ast.Call) and isinstance(s.value.func, ast.Attribute) \
+                and s.value.func.attr == 'append' and len(s.value.args) == 1 and not s.value.keywords:
+            a = s.value.args[0]
+            if isinstance(a, ast.Call) and isinstance(a.func, ast.Name) and a.func.id in ('iter', 'tuple', 'list') and len(a.args) == 1:
+                a = a.args[0]
+            if isinstance(a, (ast.List, ast.Tuple)) and len(a.elts) == 2 and p.fold(f.module, a.elts[0], None, f) in (b'host', 'host'):
+                out.append((s, a.elts[1]))
+    return out
+
+
+def _name_loads(node) -> Set[str]:
+    return {x.id for x in ast.walk(node) if isinstance(x, ast.Name) and isinstance(x.ctx, ast.Load)}
+
+
+def _name_stores(node) -> Set[str]:
+    out = {x.id for x in ast.walk(node) if isinstance(x, ast.Name) and isinstance(x.ctx, (ast.Store, ast.Del))}
+    for x in ast.walk(node):
+        # parts.append(...) and the like: the content of a needed local changes
+        if isinstance(x, ast.Expr) and isinstance(x.value, ast.Call) and isinstance(x.value.func, ast.Attribute) and isinstance(x.value.func.value, ast.Name):
+            out.add(x.value.func.value.id)
+    return out
+
+
+def _backward_slice(f: Func, stmt, exprs):
+    """The statements of f that (transitively) compute the locals `exprs` read at `stmt`, in program order, and the
+    names the slice leaves free.  Branch conditions AROUND `stmt` are not part of the slice (the question is what the
+    value is when the statement runs); statements before it are taken whole, with their own conditions."""
+    parent = enclosing_map(f.node)
+    needed: Set[str] = set()
+    for e in exprs:
+        needed |= _name_loads(e)
+    picked = []
+    child = stmt
+    while True:
+        a = parent.get(id(child))
+        if a is None:
+            raise UnknownIdiom('%s: cannot place `%s` in the function body' % (f.qual, short(child, 50)))
+        if not isinstance(a, (ast.If, ast.With, ast.FunctionDef, ast.AsyncFunctionDef)):
+            raise UnknownIdiom('%s: the Host header is built inside a %s (only if / with nesting is read)' % (f.qual, type(a).__name__))
+        blk = next((b for b in (getattr(a, 'body', None), getattr(a, 'orelse', None)) if isinstance(b, list) and any(x is child for x in b)), None)
+        if blk is None:
+            raise UnknownIdiom('%s: cannot place `%s` in its block' % (f.qual, short(child, 50)))
+        i = next(k for k, x in enumerate(blk) if x is child)
+        for s in reversed(blk[:i]):
+            if isinstance(s, (ast.FunctionDef, ast.AsyncFunctionDef, ast.ClassDef)):
+                continue
+            if _name_stores(s) & needed:
+                picked.append(s)
+                needed |= _name_loads(s)
+        if a is f.node:
+            break
+        child = a
+    picked.reverse()
+    return picked, needed
+
+
+def _r20_run(ev: ConcreteEval, f: Func, stmts, env, what):
+    try:
+        ev.run(stmts, env, f)
+    except CRaise as ex:
+        raise UnknownIdiom('%s: evaluating the statements that build the Host header raises %s for %s' % (f.qual, ex.cls, what))
+    except Unreadable:
+        raise
+    except Exception as ex:     # a return / break inside the slice
+        if type(ex).__name__ in ('_CReturn', '_CBreak', '_CContinue'):
+            raise UnknownIdiom('%s: the statements that build the Host header leave the function early for %s' % (f.qual, what))
+        raise
+
+
+def _r20_env(p, ev, f: Func, free: Set[str], given: Dict[str, object]):
+    """values for the parameters the slice leaves free: the cell's, or the parameter's own default"""
+    env: Dict[str, object] = {}
+    defaults = _defaults(f)
+    for n in sorted(free):
+        if n not in f.params():
+            continue                    # a module-level name: the evaluator resolves it
+        if n in given:
+            env[n] = given[n]
+        elif n in defaults:
+            env[n] = ev.ev(defaults[n], {}, None, f.module)
+        else:
+            raise UnknownIdiom('%s: the Host header depends on the parameter `%s`, which has no default' % (f.qual, n))
+    return env
+
+
+def _host_value(p, driver: Func, scheme, port):
+    """(function holding the sink, sink statement, Host header value) for one cell of scheme x port, by evaluating the
+    backward slice of the sink in the driver (or in the one module-level helper the driver calls for its effect)."""
+    what = 'scheme=%r port=%r' % (scheme, port)
+    given = {'scheme': scheme, 'port': port, 'host': _R20_HOST}
+    ev = ConcreteEval(p)
+    sinks = _host_sinks(p, driver)
+    if len(sinks) == 1:
+        stmt, val = sinks[0]
+        stmts, free = _backward_slice(driver, stmt, [val])
+        if not {'scheme', 'port'} <= free:
+            raise UnknownIdiom('%s: the Host header does not depend on both `scheme` and `port`' % driver.qual)
+        env = _r20_env(p, ev, driver, free, given)
+        _r20_run(ev, driver, stmts, env, what)
+        try:
+            return driver, stmt, ev.ev(val, env, driver)
+        except CRaise as ex:
+            raise UnknownIdiom('%s: `%s` raises %s for %s' % (driver.qual, short(val, 40), ex.cls, what))
+    if len(sinks) > 1:
+        raise UnknownIdiom('%s: several stores of the Host header' % driver.qual)
+    # one level of helpers called for their effect
+    parent = enclosing_map(driver.node)
+    found = []
+    for c in walk_no_nested(driver.node):
+        if isinstance(c, ast.Call) and isinstance(parent.get(id(c)), ast.Expr):
+            t = p.resolve_callable(driver, c.func)
+            if isinstance(t, Func) and t.cls is None and t.module is driver.module:
+                hs = _host_sinks(p, t)
+                if hs:
+                    found.append((c, parent[id(c)], t, hs))
+    if len(found) != 1 or len(found[0][3]) != 1:
+        raise AnchorError('%s: the store of the Host header (HTTP_HOST / b"host") was not found in the driver or in one helper it calls' % driver.qual)
+    call, call_stmt, helper, [(stmt, val)] = found[0]
+    if any(isinstance(a, ast.Starred) for a in call.args) or any(k.arg is None for k in call.keywords):
+        raise UnknownIdiom('%s: `%s` is called with star-arguments' % (driver.qual, helper.name))
+    h_stmts, h_free = _backward_slice(helper, stmt, [val])
+    hps = helper.params()
+    binding = {hps[i]: a for i, a in enumerate(call.args) if i < len(hps)}
+    binding.update({k.arg: k.value for k in call.keywords})
+    wanted = [n for n in sorted(h_free) if n in hps]
+    missing = [n for n in wanted if n not in binding and n not in _defaults(helper)]
+    if missing:
+        raise UnknownIdiom('%s: `%s` is not given its parameter `%s`' % (driver.qual, helper.name, missing[0]))
+    arg_exprs = [binding[n] for n in wanted if n in binding]
+    d_stmts, d_free = _backward_slice(driver, call_stmt, arg_exprs)
+    if not {'scheme', 'port'} <= d_free:
+        raise UnknownIdiom('%s: the Host header built by %s does not depend on both `scheme` and `port` of the driver' % (driver.qual, helper.name))
+    env = _r20_env(p, ev, driver, d_free, given)
+    _r20_run(ev, driver, d_stmts, env, what)
+    h_given = {}
+    try:
+        for n in wanted:
+            if n in binding:
+                h_given[n] = ev.ev(binding[n], env, driver)
+    except CRaise as ex:
+        raise UnknownIdiom('%s: an argument of `%s` raises %s for %s' % (driver.qual, helper.name, ex.cls, what))
+    h_env = _r20_env(p, ev, helper, h_free, h_given)
+    _r20_run(ev, helper, h_stmts, h_env, what)
+    try:
+        return helper, stmt, ev.ev(val, h_env, helper)
+    except CRaise as ex:
+        raise UnknownIdiom('%s: `%s` raises %s for %s' % (helper.qual, short(val, 40), ex.cls, what))
+
+
+def r20_host_port_elision(run):
+    """Both test drivers build the Host header a real client would send: `host` alone when the port is the default port
+    OF THE REQUEST'S SCHEME (80 for http, 443 for https; also when no port is given), `host:port` otherwise (RFC 9110,
+    7.2).  Decided by evaluating the statements that compute the header value -- the backward slice of the store of
+    HTTP_HOST / b'host' in create_environ / create_scope (through the one helper it calls) -- over the abstract domain
+    scheme in {http, https} x port in {not given, 80, 443, other}; both drivers must produce the required table, hence
+    agree with each other.
+    Witness: simulate_get(protocol='https', port=80): a client sends `Host: example.org:80`; a driver that drops the port
+    makes req.port / netloc / uri / forwarded_host report the scheme default, and the WSGI and ASGI twins see different requests."""
+    p = run.project
+    wq, aq = DRIVER_PAIRS[0]
+    for q in (wq, aq):
+        driver = p.func(q)
+        run.use(driver)
+        for scheme in _R20_SCHEMES:
+            for port in _R20_PORTS:
+                holder, stmt, got = _host_value(p, driver, scheme, port)
+                run.use(holder)
+                if isinstance(got, bytes):
+                    got = got.decode('latin-1')
+                eff = _R20_DEFAULT_PORT[scheme] if port is None else port
+                kept = '%s:%d' % (_R20_HOST, eff)
+                if got == _R20_HOST:
+                    have = 'elided'
+                elif got == kept:
+                    have = 'kept'
+                else:
+                    raise UnknownIdiom('%s: the Host header for scheme=%r port=%r evaluates to %r (neither the host nor host:port)'
+                                       % (holder.qual, scheme, port, got))
+                want = 'elided' if eff == _R20_DEFAULT_PORT[scheme] else 'kept'
+                cell = 'scheme=%s, port=%s' % (scheme, 'not given' if port is None else port)
+                run.check(have == want,
+                          '%s: the simulated Host header has the port %s for %s (the port is dropped exactly when it is the default port of the scheme)'
+                          % (driver.name, want, cell), holder, 'Host header [%s]: port %s' % (cell, have), where=holder.loc(stmt),
+                          runtime_witness='simulate_get(protocol=%r, port=%r): the simulated request carries `Host: %s` where a client sends `Host: %s`; '
+                                          'req.port / netloc / uri / forwarded_host differ from the real request and from the other stack\'s simulation'
+                                          % (scheme, port, got, _R20_HOST if want == 'elided' else kept))
+
+
+# ---------------------------------------------------------------------------
+# R21: the one-shot ASGI conductor serves the request between lifespan startup and shutdown
+# ---------------------------------------------------------------------------
+
+_STARTUP_DONE = 'lifespan.startup.complete'
+_SHUTDOWN_DONE = 'lifespan.shutdown.complete'
+
+
+def _funcs_mentioning(p, module, text: str) -> Set[str]:
+    return {g.qual for g in module.functions.values()
+            if any(isinstance(x, ast.Constant) and x.value == text for x in walk_no_nested(g.node))}
+
+
+def _with_nested(f: Func) -> List[Func]:
+    out = [f]
+    for g in f.nested.values():
+        out.extend(_with_nested(g))
+    return out
+
+
+def _scope_kind(p, fn: Func, e) -> Optional[str]:
+    """'lifespan' | 'http' for the scope expression handed to the app (a dict display, or a local bound once to one in
+    this function or an enclosing one); None when it cannot be told."""
+    if isinstance(e, ast.Name):
+        g: Optional[Func] = fn
+        while g is not None:
+            vals = assignments(g).get(e.id)
+            if vals:
+                if len(vals) == 1 and vals[0] is not None:
+                    return _scope_kind(p, g, vals[0])
+                return None
+            if e.id in g.params():
+                return None
+            g = g.parent
+        return None
+    if isinstance(e, ast.Dict):
+        for k, v in zip(e.keys, e.values):
+            if k is not None and p.fold(fn.module, k, None, fn) == 'type':
+                t = p.fold(fn.module, v, None, fn)
+                if t is UNKNOWN:
+                    return None
+                return 'lifespan' if t == 'lifespan' else 'http'
+        return None
+    if isinstance(e, ast.Call):
+        t = p.resolve_callable(fn, e.func)
+        if isinstance(t, Func) and t.qual == DRIVER_PAIRS[0][1]:
+            return 'http'               # helpers.create_scope(...): the simulated HTTP request
+    return None
+
+
+def _app_runs(p, fn: Func, app_names):
+    """[(call, 'lifespan' | 'http')]: calls `app(scope, receive, send)` in fn (not in nested functions)."""
+    out = []
+    for c in walk_no_nested(fn.node):
+        if not (isinstance(c, ast.Call) and len(c.args) == 3 and not c.keywords):
+            continue
+        if not ((isinstance(c.func, ast.Name) and c.func.id in app_names) or (isinstance(c.func, ast.Attribute) and unparse(c.func) == 'self.app')):
+            continue
+        kind = _scope_kind(p, fn, c.args[0])
+        if kind is None:
+            raise UnknownIdiom('%s: cannot tell which scope `%s` runs the app with' % (fn.qual, short(c, 60)))
+        out.append((c, kind))
+    return out
+
+
+def _await_nodes(p, fn: Func, cfg, pred) -> Set[int]:
+    """CFG nodes that await something `pred(awaited expression)` accepts"""
+    out = set()
+    for n in cfg.live_nodes():
+        for x in n.walk():
+            if isinstance(x, ast.Await) and pred(x.value):
+                out.add(n.id)
+    return out
+
+
+def r21_lifespan_order(run):
+    """A spec-faithful ASGI server dispatches HTTP only between `lifespan.startup.complete` and the start of shutdown.  In
+    every function of the one-shot ASGI driver that runs the app for the lifespan scope, (a) each statement that runs the
+    app for the HTTP scope (creates its task / awaits it) is dominated by the `await` of the helper that waits for
+    lifespan.startup.complete, and (b) the await of the helper that waits for lifespan.shutdown.complete -- and the
+    notification that lets shutdown begin -- is dominated by the await of the request's task.  ASGIConductor.__aenter__
+    (which serves the conductor's later requests) returns only after the startup wait.
+    Witness: a process_startup hook that awaits once before publishing state: simulate_get() runs the responder while
+    startup is parked -- 503 'not loaded' under the test client, 200 under a real server and on the WSGI twin."""
+    p = run.project
+    outer = p.func(DRIVER_PAIRS[1][1])
+    if any(d.endswith('overload') for d in outer.decorators):
+        raise UnknownIdiom('%s: an @overload stub was indexed instead of the implementation' % outer.qual)
+    if 'app' not in outer.params():
+        raise AnchorError('%s has no `app` parameter' % outer.qual)
+    mod = outer.module
+    startup_waiters = _funcs_mentioning(p, mod, _STARTUP_DONE)
+    shutdown_waiters = _funcs_mentioning(p, mod, _SHUTDOWN_DONE)
+    if not startup_waiters or not shutdown_waiters:
+        raise AnchorError('%s: no helper waits for %s / %s' % (mod.name, _STARTUP_DONE, _SHUTDOWN_DONE))
+
+    def awaited_callee(fn, e, quals):
+        if isinstance(e, ast.Call):
+            t = p.resolve_callable(fn, e.func)
+            return isinstance(t, Func) and t.qual in quals
+        return False
+
+    n_lifespan = 0
+    for fn in _with_nested(outer):
+        runs = _app_runs(p, fn, {'app'})
+        if not any(k == 'lifespan' for _c, k in runs):
+            continue
+        n_lifespan += 1
+        cfg = cfg_of(fn, p)
+        run.use_cfg(cfg)
+        http = [c for c, k in runs if k == 'http']
+        if not http:
+            raise AnchorError('%s runs the lifespan scope but never the HTTP scope (anchor moved?)' % fn.qual)
+        started = _await_nodes(p, fn, cfg, lambda e: awaited_callee(fn, e, startup_waiters))
+        if not started:
+            raise AnchorError('%s: no await of the startup wait (%s)' % (fn.qual, ', '.join(sorted(q.rsplit('.', 1)[-1] for q in startup_waiters))))
+        for c in http:
+            nodes = [n.id for n in cfg.live_nodes() if any(x is c for x in n.walk())]
+            if not nodes:
+                continue                # dead code
+            path = flow.find_path(cfg, [cfg.entry], nodes, avoid_nodes=started)
+            run.check(path is None, 'the app is run for the HTTP scope only after the await of lifespan startup completion (dominance)', fn, c,
+                      where=fn.loc(c), witness=flow.describe_path(cfg, path) if path else None,
+                      runtime_witness='an app whose process_startup hook awaits once: simulate_get() dispatches the request while startup is parked; '
+                                      'the responder sees the pre-startup state (events: startup-begin, request, startup-end)')
+        # (b) shutdown only after the request's task has been awaited
+        tasks = set()
+        for n, vals in assignments(fn).items():
+            if any(v is not None and any(x is c for c in http for x in ast.walk(v)) for v in vals):
+                tasks.add(n)
+        finished = _await_nodes(p, fn, cfg, lambda e: (isinstance(e, ast.Name) and e.id in tasks) or any(e is c for c in http))
+        if not finished:
+            raise UnknownIdiom('%s: no await of the HTTP task / app call found' % fn.qual)
+        conds = {n for n, vals in assignments(fn.parent or fn).items() if any(v is not None and isinstance(v, ast.Call) and
+                 (p.resolve_expr(mod, v.func, fn) or '') == 'asyncio.Condition' for v in vals)} | \
+                {n for n, vals in assignments(fn).items() if any(v is not None and isinstance(v, ast.Call) and
+                 (p.resolve_expr(mod, v.func, fn) or '') == 'asyncio.Condition' for v in vals)}
+        closing = {}
+        for nid in _await_nodes(p, fn, cfg, lambda e: awaited_callee(fn, e, shutdown_waiters)):
+            closing[nid] = 'the wait for lifespan shutdown completion'
+        for n in cfg.live_nodes():
+            for x in n.walk():
+                if isinstance(x, ast.Call) and isinstance(x.func, ast.Attribute) and x.func.attr in ('notify', 'notify_all') \
+                        and isinstance(x.func.value, ast.Name) and x.func.value.id in conds:
+                    closing[n.id] = 'the notification that lets lifespan shutdown begin'
+        if not closing:
+            raise AnchorError('%s: neither the shutdown wait nor the shutdown notification was found' % fn.qual)
+        for nid, what in sorted(closing.items()):
+            path = flow.find_path(cfg, [cfg.entry], [nid], avoid_nodes=finished)
+            run.check(path is None, '%s comes only after the await of the HTTP request\'s task (dominance)' % what, fn, cfg.node(nid).ast,
+                      where=fn.loc(cfg.node(nid).ast), witness=flow.describe_path(cfg, path) if path else None,
+                      runtime_witness='a responder that awaits: process_shutdown runs (and tears state down) while the request is still in flight')
+    if n_lifespan == 0:
+        raise AnchorError('%s: no function of the one-shot driver runs the app for the lifespan scope' % outer.qual)
+    # the context-manager conductor: requests are simulated after __aenter__ has returned
+    enter = p.func('falcon.testing.client.ASGIConductor.__aenter__')
+    runs = _app_runs(p, enter, set())
+    if not any(k == 'lifespan' for _c, k in runs):
+        raise AnchorError('%s does not run the app for the lifespan scope' % enter.qual)
+    cfg = cfg_of(enter, p)
+    run.use_cfg(cfg)
+    started = _await_nodes(p, enter, cfg, lambda e: awaited_callee(enter, e, startup_waiters))
+    path = flow.find_path(cfg, [cfg.entry], [cfg.exit], avoid_nodes=started, edge_filter=flow.no_exc) if started else [cfg.entry]
+    run.check(path is None, 'ASGIConductor.__aenter__ returns only after the await of lifespan startup completion', enter,
+              'return without awaiting the startup wait' if started else 'no await of the startup wait', where=enter.loc(),
+              witness=flow.describe_path(cfg, path) if path and started else None,
+              runtime_witness='async with ASGIConductor(app) as c: await c.simulate_get(...) reaches the responder before process_startup has finished')
+
 
 def check(run):
     run.assume('whole-behaviour equality is not decided; the parity obligations between the hand-duplicated siblings are')
@@ -2443,3 +2817,5 @@ def check(run):
     run.rule('R17', r17_ctor_attribute_parity, 'the two request constructors bind the same public per-request attributes; declared attributes are bound', floor=15)
     run.rule('R18', r18_driver_defaults, 'WSGI / ASGI test drivers: shared parameters have the same defaults', floor=20)
     run.rule('R19', r19_driver_conversions, 'create_environ / create_scope: shared parameters go through the same conversion / validation functions', floor=8)
+    run.rule('R20', r20_host_port_elision, 'create_environ / create_scope: the Host header carries the port exactly when it is not the default port of the scheme (scheme x port cells)', floor=16)
+    run.rule('R21', r21_lifespan_order, 'one-shot ASGI driver: the HTTP scope is served after the await of lifespan startup and before shutdown is released (dominance)', floor=4)
